@@ -29,7 +29,12 @@ ASSUMPTIONS = [
 ]
 
 NAMES = ["AA", "BQ", "CX", "DV", "EK", "FM", "GW", "HZ", "K2", "L7", "MU", "NB", "QY", "RJ", "SV", "UU", "VC", "WD", "XE", "YF", "ZG"]
-POSITIONS = ["top", "top", "fnarg", "read", "input", "varptr", "dim", "dim"]
+POSITIONS = ["top", "top", "fnarg", "read", "input", "varptr", "dim", "dim", "slot", "slot"]
+# statement templates with one expression slot ({n}: numeric expression using the variable, {s}: string expression using it)
+NUM_SLOTS = ["FOR ZI={n} TO 3:NEXT", "FOR ZI=1 TO {n}:NEXT", "FOR ZI=1 TO 3 STEP {n}+1:NEXT", "ON {n} GOTO 10", "PRINT {n}", "IF {n}>1 THEN ZN=2", "IF {n}=0 THEN ZN=1 ELSE ZN=3",
+             "ZN=ZQ({n})", "ZQ({n})=1", "POKE 1024,{n}", "SOUND {n},1", "HSET({n},2)", "PRINT@{n},\"X\"", "LOCATE 1,{n}", "ZN=INT({n})", "ZS$=STR$({n})", "ZS$=CHR$(65+{n})"]
+STR_SLOTS = ["FOR ZI=1 TO 3 STEP LEN({s})+1:NEXT", "PRINT {s}", "IF {s}=\"Q\" THEN ZN=2", "IF {s}<>\"\" THEN ZN=1 ELSE ZN=3", "ZN=ZQ(LEN({s}))", "PLAY {s}", "HPRINT(1,1),{s}",
+             "ZN=VAL({s})", "ZN=INSTR(1,{s},\"A\")", "ZS$=STRING$(2,{s}+\"*\")", "ZS$=MID$({s}+\"ABC\",1,2)", "ON ASC({s}+\"A\")-64 GOTO 10"]
 
 
 @functools.lru_cache(maxsize=None)
@@ -104,6 +109,10 @@ def cases(draw, switches):
             body.append("INPUT %s" % ref)
         elif pos == "varptr":
             body.append("ZN=VARPTR(%s)" % ref)
+        elif pos == "slot":
+            tmpl = draw(st.sampled_from(STR_SLOTS if sfx else NUM_SLOTS))
+            body.append(tmpl.format(n=ref, s=ref))
+            v["pos"] = "slot:" + tmpl.split("{")[0].strip()[:14]
         if pos in ("read", "input", "varptr") and "rw_targets_also_top_level" in switches:
             # open finding: names seen only as READ / INPUT targets or under VARPTR are not declared
             body.append("%s=%s" % (ref, '"T"' if sfx else "1"))
@@ -117,8 +126,21 @@ def cases(draw, switches):
     order = draw(st.permutations(body))
     ln = 10
     if dims_line:
-        lines.append("%d DIM %s" % (ln, ",".join(dims_line)))
-        ln += 10
+        # one to three DIM statements, on one line or several
+        k = draw(st.integers(1, min(3, len(dims_line))))
+        cuts = sorted(draw(st.lists(st.integers(1, len(dims_line) - 1), min_size=k - 1, max_size=k - 1, unique=True))) if len(dims_line) > 1 and k > 1 else []
+        groups, prev = [], 0
+        for c in cuts + [len(dims_line)]:
+            groups.append(dims_line[prev:c])
+            prev = c
+        groups = [g for g in groups if g]
+        if draw(st.booleans()):
+            lines.append("%d %s" % (ln, ":".join("DIM " + ",".join(g) for g in groups)))
+            ln += 10
+        else:
+            for g in groups:
+                lines.append("%d DIM %s" % (ln, ",".join(g)))
+                ln += 10
     i = 0
     while i < len(order):
         k = draw(st.integers(1, 3))
@@ -257,7 +279,7 @@ def campaign(seed, n, switches=frozenset()):
         check_case(case)
         nontop = any(v["pos"] not in ("top", "dim") for v in case["vars"])
         nt = case["_status"] == "ok" and nontop and case["options"]["default_str_storage"] != 32
-        classes = ["status_" + case["_status"]] + sorted({"pos_" + v["pos"] for v in case["vars"]}) + sorted({"kind_" + v["kind"] for v in case["vars"]})
+        classes = ["status_" + case["_status"]] + sorted({"pos_" + v["pos"].split(":")[0] for v in case["vars"]}) + sorted({"kind_" + v["kind"] for v in case["vars"]})
         if case["options"]["default_str_storage"] != 32:
             classes.append("non_default_storage")
         if case["options"]["string_configs"]:
